@@ -229,6 +229,8 @@ impl Process {
     }
 
     pub fn set_state(&self, state: TaskState) {
+        #[cfg(feature = "verif")]
+        crate::verif::on_proc_state(self, &state);
         if state.is_completed() {
             self.set_end_time(utils::time::time_millis());
         } else if state.is_running() {
@@ -364,6 +366,8 @@ impl Process {
         if let Some(prev) = prev {
             task.set_prev(Some(prev.id.clone()));
         }
+        #[cfg(feature = "verif")]
+        crate::verif::on_create_task(&task);
         self.push_task(task.clone());
         task
     }
